@@ -23,7 +23,7 @@ MIN_CLASSES = {
     "thorough": {f"embedding:{k}": 1500 for k in ("direct", "list", "dict", "nested", "deep", "meta", "pre", "init", "explicit")},
 }
 MIN_CLASSES["quick"]["has-edge"] = 2000
-MIN_CLASSES["quick"]["pre-task-on-output"] = 150
+MIN_CLASSES["quick"]["pre-task-on-output"] = 120
 
 
 def nontrivial(case, H, labels):
